@@ -261,6 +261,11 @@ let dispatch (req : Sexp.t) : Sexp.t =
         L [put_bool (file_consistent wt c hs); put_list (fun h -> put_bool (hunk_ok wt c h)) hs]
       | "diff_after", [hs] -> put_bytes (diff_after (get_list get_fhunk hs))
       | "line_after_plan", [l; hs] -> put_bytes (line_after_plan (get_bytes l) (get_list get_fhunk hs))
+      | "plan_listing", [m; rf; rd; l] ->
+        let m = get_list (function L [k; v] -> (get_bytes k, get_bytes v) | _ -> failwith "kv") m in
+        let l = get_list (function L [p; d] -> { en_path = get_path p; en_dir = get_bool d } | _ -> failwith "entry") l in
+        let rs = plan_listing (name_by_map m) (get_bool rf) (get_bool rd) l in
+        put_list (fun r -> L [put_path r.ar_path; put_path r.ar_new; put_bool r.ar_dir]) rs
       | "spec_apply", [p; t] -> put_fs (spec_apply (get_aplan p) (get_fs t))
       | "serde_plan", [p] ->
         let p = get_plan p in
